@@ -37,6 +37,8 @@ pub enum Dom {
     AmbNonPos,
     /// integer count, documented `x >= n`
     CountGe(u64),
+    /// categorical parameter with values `0..n`; the value `bad` is documented as an error, the others are valid
+    Category { n: u64, bad: u64 },
     /// integer count, `x >= n` in range, below ambiguous (range table and error list of the docs disagree)
     CountGeAmbBelow(u64),
 }
@@ -104,6 +106,7 @@ impl Dom {
                 }
             }
             Dom::CountGe(n) => b(x >= n as f64),
+            Dom::Category { bad, .. } => b(x != bad as f64),
             Dom::CountGeAmbBelow(n) => {
                 if x >= n as f64 {
                     In
@@ -142,6 +145,7 @@ impl Dom {
                 f64::EPSILON,
                 up(f64::EPSILON),
             ],
+            Dom::Category { n, .. } => (0..n).map(|k| k as f64).collect(),
             Dom::CountGe(n) | Dom::CountGeAmbBelow(n) => {
                 let mut v = vec![];
                 if n >= 2 {
